@@ -347,9 +347,13 @@ def run(rep, tier, seed):
                       {"sets": sets, "bits": {k: env[k] for k in FLAGS}}, found_input=False)
     common.proof_coverage(rep, PID, audit, tier,
                           "the extension gates of the pull parser (Model/Parser.v: step.rs, quantity.rs, mod.rs) and of "
-                          "the analysis pass (Model/Analysis.v: in_step, metadata, timer); the document-level "
-                          "invariance is a theorem for step blocks of core tokens (C02_step_invariant_partial) and is "
-                          "otherwise monitored on the implementation")
+                          "the analysis pass (Model/Analysis.v: in_step, metadata, timer). Proved over the models: the "
+                          "event stream of a whole document is the same for any two extension words when every block "
+                          "is block_ok (C02_events_invariant), the collector gives the same result for any two "
+                          "extension records on a quiet stream (C02_analyse_invariant), and both together "
+                          "(C02_pipeline_invariant_partial). Not proved, monitored on the implementation only: that "
+                          "core_doc alone makes metadata/ingredient events quiet (C02_full_statement), the absence of "
+                          "errors on well-formed core recipes, and the converse readings at document level")
     distinct = set(t for t, _, _ in core_ok) | set(fam_inputs) | set(s for s in strings if any(c in s for c in "@~>="))
     rep.coverage.update({
         "evaluations": parses + lev_cases,
